@@ -2651,7 +2651,7 @@ func (p *Parser) testClause(s *Stmt) {
 	tc := &TestClause{Left: p.pos}
 	old := p.preNested(testExpr)
 	p.next()
-	if tc.X = p.testExprBinary(false); tc.X == nil {
+	if tc.X = p.testExprBinary(testLevelOr); tc.X == nil {
 		p.followErrExp(tc.Left, dblLeftBrack)
 	}
 	tc.Right = p.pos
@@ -2662,20 +2662,35 @@ func (p *Parser) testClause(s *Stmt) {
 	s.Cmd = tc
 }
 
-func (p *Parser) testExprBinary(pastAndOr bool) TestExpr {
+const (
+	testLevelOr = iota
+	testLevelAnd
+	testLevelTerm
+)
+
+// testExprBinary parses a test expression at one of three precedence levels,
+// like Bash does: || chains, then && chains, then single terms.
+func (p *Parser) testExprBinary(level int) TestExpr {
 	p.got(_Newl)
 	var left TestExpr
-	if pastAndOr {
+	if level == testLevelTerm {
 		left = p.testExprUnary()
 	} else {
-		left = p.testExprBinary(true)
+		left = p.testExprBinary(level + 1)
 	}
 	if left == nil {
 		return left
 	}
 	p.got(_Newl)
 	switch p.tok {
-	case andAnd, orOr:
+	case andAnd:
+		if level > testLevelAnd {
+			return left
+		}
+	case orOr:
+		if level > testLevelOr {
+			return left
+		}
 	case _LitWord:
 		if p.val == "]]" {
 			return left
@@ -2699,7 +2714,7 @@ func (p *Parser) testExprBinary(pastAndOr bool) TestExpr {
 	switch b.Op {
 	case AndTest, OrTest:
 		p.next()
-		if b.Y = p.testExprBinary(false); b.Y == nil {
+		if b.Y = p.testExprBinary(level); b.Y == nil {
 			p.followErrExp(b.OpPos, b.Op)
 		}
 	case TsReMatch:
@@ -2742,7 +2757,7 @@ func (p *Parser) testExprUnary() TestExpr {
 	case exclMark:
 		u := &UnaryTest{OpPos: p.pos, Op: TsNot}
 		p.next()
-		if u.X = p.testExprBinary(false); u.X == nil {
+		if u.X = p.testExprBinary(testLevelTerm); u.X == nil {
 			p.followErrExp(u.OpPos, u.Op)
 		}
 		return u
@@ -2757,7 +2772,7 @@ func (p *Parser) testExprUnary() TestExpr {
 	case leftParen:
 		pe := &ParenTest{Lparen: p.pos}
 		p.next()
-		if pe.X = p.testExprBinary(false); pe.X == nil {
+		if pe.X = p.testExprBinary(testLevelOr); pe.X == nil {
 			p.followErrExp(pe.Lparen, leftParen)
 		}
 		pe.Rparen = p.matched(pe.Lparen, leftParen, rightParen)
